@@ -89,6 +89,8 @@ type FnCtx struct {
 	specDF   []string
 	esc      *escInfo
 	existing []existingRef
+	lemmasUsed []string
+	familyOf map[ssa.Value]*family
 	allocSite map[ssa.Value]string
 	specAX   []string
 }
@@ -572,7 +574,11 @@ func (fc *FnCtx) setVal(v ssa.Value, r Val) {
 type vcError struct{ msg string }
 
 func (e *Engine) newFnCtx(fn *ssa.Function, con *Contract) *FnCtx {
-	fc := &FnCtx{e: e, fn: fn, name: fnName(fn), con: con, declared: map[string]bool{}, vals: map[ssa.Value]Val{},
+	nm := ""
+	if fn != nil {
+		nm = fnName(fn)
+	}
+	fc := &FnCtx{e: e, fn: fn, name: nm, con: con, declared: map[string]bool{}, vals: map[ssa.Value]Val{},
 		reach: map[*ssa.BasicBlock]string{}, exit: map[*ssa.BasicBlock]HeapState{}, heapSort: map[string]string{},
 		occ: map[string]int{}, touched: map[string]bool{}, varRefs: map[string][]varRef{}, specsUsed: map[string]bool{},
 		loopHeadEnv: map[*ssa.BasicBlock]HeapState{}, allocSite: map[ssa.Value]string{}, exitReach: map[*ssa.BasicBlock]string{}}
@@ -622,6 +628,7 @@ func (fc *FnCtx) generate() (err error) {
 	fc.declare("zeroarr", SArr)
 	fc.assertGlobal("(= zeroarr ((as const (Array Int Int)) 0))")
 	fc.collectVarRefs()
+	fc.findFamilies()
 	fc.entry = HeapState{m: map[string]string{}, epoch: 0}
 	fc.cur = fc.entry.clone()
 	fc.curReach = "true"
@@ -643,6 +650,7 @@ func (fc *FnCtx) generate() (err error) {
 			fc.e.assume("pointer receivers are non-nil")
 		}
 	}
+	fc.useLemmas()
 	// preconditions
 	if fc.con != nil {
 		env := fc.entryEnv()
